@@ -347,7 +347,8 @@ func genC09(g *gen) {
 		}
 		// 6. column-major operands / destinations (property C16 proper): a modest number
 		for _, op := range []string{"inner", "mv", "mm", "outer", "dot", "tdot"} {
-			for _, lays := range [][2]string{{"colmajor", "colmajor"}, {"colmajor", "contig"}, {"contig", "colmajor"}, {"colmajor", "lazyT"}} {
+			for _, lays := range [][2]string{{"colmajor", "colmajor"}, {"colmajor", "contig"}, {"contig", "colmajor"}, {"colmajor", "lazyT"},
+				{"colsliced", "colsliced"}, {"colsliced", "contig"}, {"colstepped", "colmajor"}, {"contig", "colsliced"}, {"colmajor", "colstepped"}} {
 				for k := 0; k < 9; k++ {
 					dt := g.r.pick(laDtypes[:2])
 					m, n, kk := g.dim(), g.dimv(), g.dimv()
